@@ -47,6 +47,10 @@ func ParseAuditPath(serialized map[string]hashing.Digest) AuditPath {
 	parsed := make(AuditPath, len(serialized))
 	for k, v := range serialized {
 		tokens := strings.Split(k, "|")
+		if len(tokens) != 2 {
+			// not a position: leave it out, the proof cannot verify without it
+			continue
+		}
 		index, _ := strconv.Atoi(tokens[0])
 		height, _ := strconv.Atoi(tokens[1])
 		var key [keySize]byte
@@ -75,6 +79,14 @@ func NewMembershipProof(index, version uint64, auditPath AuditPath, hasher hashi
 // Verify verifies a membership proof
 func (p MembershipProof) Verify(eventDigest []byte, expectedRootHash hashing.Digest) (correct bool) {
 
+	// a proof that lacks an entry the recomputation needs is an invalid proof,
+	// not a reason to take the verifying process down
+	defer func() {
+		if r := recover(); r != nil {
+			correct = false
+		}
+	}()
+
 	// build a visitable pruned tree and then visit it to recompute root hash
 	visitor := newComputeHashVisitor(p.hasher, p.AuditPath)
 	recomputed := pruneToVerify(p.Index, p.Version, eventDigest).Accept(visitor)
@@ -98,6 +110,13 @@ func NewIncrementalProof(start, end uint64, auditPath AuditPath, hasher hashing.
 }
 
 func (p IncrementalProof) Verify(startDigest, endDigest hashing.Digest) (correct bool) {
+
+	// see MembershipProof.Verify
+	defer func() {
+		if r := recover(); r != nil {
+			correct = false
+		}
+	}()
 
 	// build two visitable pruned trees and then visit them to recompute root hash
 	visitor := newComputeHashVisitor(p.hasher, p.AuditPath)
